@@ -142,6 +142,16 @@ class StmtMixin:
             tgt = node.targets[0]
             return self.call_stmt(node.value, st, fr, lambda s, v: self.assign(tgt, v, s, fr))
         v = self.ev(node.value, st, fr)
+        if len(node.targets) == 1 and isinstance(node.targets[0], ast.Attribute) and getattr(fr, 'spec', None) is None:
+            # obj.prop = v where prop has a setter in the repo that will be inlined: keep every exit path of the setter as its own path
+            tgt = node.targets[0]
+            base = self.ev(tgt.value, st, fr)
+            if isinstance(base, Obj) and base.cls:
+                ci, prop = self.tree.lookup_property(base.cls, tgt.attr)
+                if prop is not None and 'set' in prop and self.tree.attr_ctype(base.cls, tgt.attr) is None:
+                    fv = FuncVal(ci.file, '%s.%s.setter' % (ci.name, tgt.attr), prop['set'], cls=ci.name)
+                    if self.will_inline(fv, fr):
+                        return self.inline_paths(fv, [base, v], {}, base.cls, st, fr, lambda s_, v_: None)
         outs = self.flush(st)
         for t in node.targets:
             self.assign(t, v, st, fr)
@@ -172,6 +182,9 @@ class StmtMixin:
             outs.append(('normal', st, None))
             return outs
         fv, args, kwargs, dyn_cls = target
+        return self.inline_paths(fv, args, kwargs, dyn_cls, st, fr, sink)
+
+    def inline_paths(self, fv, args, kwargs, dyn_cls, st, fr, sink):
         pre = self.flush(st)
         frame = Frame(fv.node, fv.file, fv.cls, fr.contract, fr.depth + 1)
         frame.spec = None
@@ -587,6 +600,12 @@ class StmtMixin:
 
     def havoc_loop_state(self, node, st, fr, spec):
         names, targets = self.modified_in(node.body, st, fr)
+        if '$now' in st.ghost or self.uses_alloc:
+            from .eng_core import ALLOC_T
+            now0 = st.ghost.get('$now', z3.IntVal(0))
+            now = self.fresh('hv_now', 'int')
+            st.pc.append(now >= now0)
+            st.ghost['$now'] = now
         # method calls that mutate sequence objects held in locals (append)
         for n in ast.walk(node):
             if isinstance(n, ast.Call) and isinstance(n.func, ast.Attribute) and n.func.attr == 'append' and isinstance(n.func.value, ast.Name):
@@ -826,7 +845,7 @@ class StmtMixin:
             st.locals = saved
             return out
         if g.ifs:
-            raise Unsupported('filtered comprehension over symbolic sequence')
+            return self.filter_comprehension(node, g, it, st, fr)
         n, el = self.iter_domain(it, st, fr)
         # map: new sequence r with len n and r[k] = elt(seq[k]) for all k (pure element expression required)
         k = z3.Int('k!lc%d' % self.counter)
@@ -869,3 +888,57 @@ class StmtMixin:
         return res
 
     ev_GeneratorExp = ev_ListComp
+
+    def filter_comprehension(self, node, g, it, st, fr):
+        """[x for x in seq if cond(x)] over a symbolic sequence: a fresh list r characterised completely by an order-preserving bijection
+        between its positions and the positions of seq that satisfy the (pure) condition:
+            idx: [0, len r) -> [0, n) strictly increasing, cond(idx(j)), r[j] = seq[idx(j)];  cond(k) => idx(rank(k)) = k, 0 <= rank(k) < len r."""
+        if not (isinstance(node.elt, ast.Name) and isinstance(g.target, ast.Name) and node.elt.id == g.target.id):
+            raise Unsupported('filtered comprehension with a mapped element over a symbolic sequence')
+        n, el = self.iter_domain(it, st, fr)
+        self.counter += 1
+        tag = self.counter
+        k = z3.Int('k!fc%d' % tag)
+        saved = dict(st.locals)
+        npc, nlog, heap_before = len(st.pc), len(st.log), dict(st.heap)
+
+        def cond_at(idx_term):
+            self.assign(g.target, el(st, idx_term), st, fr)
+            st.guards.append(z3.And(idx_term >= 0, idx_term < n))
+            try:
+                c = z3.BoolVal(True)
+                for cnd in g.ifs:
+                    t = self.truth(self.ev(cnd, st, fr), st)
+                    c = z3.And(c, t if not isinstance(t, bool) else z3.BoolVal(t))
+            finally:
+                st.guards.pop()
+            return c
+        ck = cond_at(k)
+        st.locals = saved
+        if len(st.log) != nlog or any(st.heap.get(f) is not heap_before[f] for f in heap_before) or len(st.pc) != npc:
+            raise Unsupported('comprehension condition with side effects')
+        v0 = el(st, k)
+        elem = 'ref' if isinstance(v0, Obj) or v0 is None else ('int' if is_int(v0) else 'real')
+        res = self.new_obj(st, 'list', 'seq', elem, 1, name='flt')
+        m = z3.Int('fltlen!%d' % tag)
+        st.heap['$len'] = z3.Store(self.field(st, '$len'), res.ref, m)
+        arr = z3.Const('fltdata!%d' % tag, z3.ArraySort(z3.IntSort(), SORTS[elem]))
+        fid = '$d1:%s' % elem
+        st.heap[fid] = z3.Store(self.field(st, fid), res.ref, arr)
+        idx = z3.Function('fltidx!%d' % tag, z3.IntSort(), z3.IntSort())
+        rank = z3.Function('fltrank!%d' % tag, z3.IntSort(), z3.IntSort())
+        j, j2 = z3.Int('j!fc%d' % tag), z3.Int('j2!fc%d' % tag)
+        cj = z3.substitute(ck, (k, idx(j)))
+        src = coerce(v0, elem) if not isinstance(v0, Obj) else v0.ref
+        srcj = z3.substitute(src, (k, idx(j)))
+        st.pc.append(z3.And(m >= 0, m <= n))
+        st.pc.append(z3.ForAll([j], z3.Implies(z3.And(j >= 0, j < m),
+                                               z3.And(idx(j) >= 0, idx(j) < n, cj, rank(idx(j)) == j, arr[j] == srcj)), patterns=[idx(j)]))
+        body_j = z3.Implies(z3.And(j >= 0, j < m), z3.And(idx(j) >= 0, idx(j) < n, cj, rank(idx(j)) == j, arr[j] == srcj))
+        for inst in (z3.IntVal(0), m - 1):
+            # ground instances at the first and last position (give the solver the terms idx(0), idx(len-1) to work with)
+            st.pc.append(z3.substitute(body_j, (j, inst)))
+        st.pc.append(z3.ForAll([k], z3.Implies(z3.And(k >= 0, k < n, ck), z3.And(rank(k) >= 0, rank(k) < m, idx(rank(k)) == k)),
+                               patterns=[rank(k)] + ([src] if z3.is_app(src) and not z3.is_const(src) else [])))
+        st.pc.append(z3.ForAll([j, j2], z3.Implies(z3.And(j >= 0, j < j2, j2 < m), idx(j) < idx(j2)), patterns=[z3.MultiPattern(idx(j), idx(j2))]))
+        return res
